@@ -45,7 +45,16 @@ SEND = {"engines": ["realloop"], "clauses": ["C20.real_send_error"], "trusted": 
 
 EXTEND = {
     "C01": merge(dev(), SEND),
-    "C02": merge(dev(), SEND),
+    "C02": merge(dev(), SEND, {"engines": ["loop"], "clauses": ["C11.only_then"],
+                               "trusted": ["loop engine, clause C11.only_then as well: a repeat chord written when nothing repeats (e.g. because the mapper's repeat request after a release "
+                                           "was lost) puts keys on the virtual keyboard that no physical key and no mapping in effect justifies, if only for the length of a tap"],
+                               "explanation": "Loop clause C11.only_then: no chord is written that nothing justifies"}),
+    "C14": {"engines": ["loop"], "clauses": ["C14.loop_panic"],
+            "trusted": ["loop engine as a further engine of C14, clause C14.loop_panic: 'every layout that loading accepts can be … driven with any sequence of key events without panicking' includes the "
+                        "event loop that drives it; the real do_remapping_loop_one_device under the scripted driver must not panic on any layout whose repeat timings are not negative "
+                        "(theorem C14_event_loop_does_not_panic on the model's side; with a negative interval HEAD itself panics after about 500 ticks: C14_event_loop_panics_with_negative_interval, "
+                        "a recorded fact about a layout the loader accepts, see section 8)"],
+            "explanation": "Further engine loop (clause C14.loop_panic): the event loop does not panic on an accepted layout with non-negative repeat timings (zero included)"},
     "C03": merge(dev(), lay()),
     "C04": merge(dev(), lay()),
     "C05": merge(dev(), lay()),
